@@ -6,8 +6,13 @@ from .common import run_impl
 from .emit import *
 
 PRE = '''From Coq Require Import List String Ascii ZArith Bool.
-From PDV Require Import Lib.StrUtil Jinja.Tir Jinja.Interp Jinja.Slice Gen.Templates.
+From PDV Require Import Lib.StrUtil Jinja.Tir Jinja.Inline Jinja.Interp Jinja.Slice Gen.Templates.
 Import ListNotations. Open Scope string_scope. Open Scope list_scope.
+Definition render_m (g : gencfg) (attr : string) (k : option nat) (t base : list stmt) (env : list (string * val)) (counter : Z) : string :=
+  match (match k with Some i => nth_for attr i t | None => if String.eqb (substring 0 3 attr) "if:" then find_if_tag (substring 3 (String.length attr) attr) t else find_for_in attr t end) with
+  | Some f => snd (execs g (inline 4 (macros_of base ++ macros_of t) [f]) (mkst (("counter", VNs "counter") :: env) [("counter", [("value", VInt counter)])]))
+  | None => "<fragment not found>"
+  end.
 Definition render (g : gencfg) (attr : string) (k : option nat) (t : list stmt) (env : list (string * val)) (counter : Z) : string :=
   match (match k with Some i => nth_for attr i t | None => if String.eqb (substring 0 3 attr) "if:" then find_if_tag (substring 3 (String.length attr) attr) t else find_for_in attr t end) with
   | Some f => snd (exec g f (mkst (("counter", VNs "counter") :: env) [("counter", [("value", VInt counter)])]))
@@ -60,8 +65,13 @@ def run(ctx, name, cases, shard=150):
                 if rd.get('text') is None:
                     continue
                 env = clist(['(%s, %s)' % (cstr(k), cval(v)) for k, v in rd['env'].items()])
-                pairs.append(('(render %s %s %s %s %s (%d)%%Z, %s)' % (g, cstr('if:' + fr['if_tag'] if 'if_tag' in fr else fr['attr']), copt(fr.get('index'), cnat), tname(fr['gen'], fr['template']), env,
-                                                                     fr.get('counter_init', 0), cstr(rd['text'])), rec))
+                sel = cstr('if:' + fr['if_tag'] if 'if_tag' in fr else fr['attr'])
+                if fr.get('macros'):
+                    pairs.append(('(render_m %s %s %s %s %s %s (%d)%%Z, %s)' % (g, sel, copt(fr.get('index'), cnat), tname(fr['gen'], fr['template']),
+                                                                                tname(fr['gen'], 'base.jinja2'), env, fr.get('counter_init', 0), cstr(rd['text'])), rec))
+                else:
+                    pairs.append(('(render %s %s %s %s %s (%d)%%Z, %s)' % (g, sel, copt(fr.get('index'), cnat), tname(fr['gen'], fr['template']), env,
+                                                                           fr.get('counter_init', 0), cstr(rd['text'])), rec))
     mism = []
     for s in range(0, len(pairs), shard):
         body = PRE + 'Definition cases := %s.\nEval vm_compute in (bad_idx 0 cases).\n' % clist([p for p, _ in pairs[s:s + shard]])
